@@ -61,7 +61,7 @@ bool add_items(metatype &to, const node *head, const relation *relation, logger 
 		if (grp && from && from->addref()) {
 			reference<metatype> m;
 			m.set_instance(from);
-			if (grp->append(&head->ident, from) < 0) {
+			if (grp->append(&head->ident, from) >= 0) {
 				m.detach();
 			}
 			else if (out) {
